@@ -1,5 +1,5 @@
 // auto-generated: "lalrpop 0.23.1"
-// sha3: ad5d8b452bedb256f662242458aa84522a48bfb207eebc885e83a3127f2f1089
+// sha3: cc03f5d111f9e03a9dd35ebf5d358ba046eadbb38af6dea75363455b39b2e01e
 use crate::rt::*;
 #[allow(unused_extern_crates)]
 extern crate lalrpop_util as __lalrpop_util;
@@ -1110,15 +1110,13 @@ fn __action1<
 fn __action2<
 >(
     (_, l, _): (i64, i64, i64),
-    (_, pL0, _): (i64, i64, i64),
     (_, c0, _): (i64, Tree, i64),
     (_, c1, _): (i64, Tok, i64),
     (_, c2, _): (i64, Tree, i64),
-    (_, pR3, _): (i64, i64, i64),
     (_, r, _): (i64, i64, i64),
 ) -> Tree
 {
-    { probe("A#0", 0, 'L', pL0); probe("A#0", 3, 'R', pR3); node("A#0", l, r, vec![Tree::from(c0), Tree::from(c1), Tree::from(c2)]) }
+    node("A#0", l, r, vec![Tree::from(c0), Tree::from(c1), Tree::from(c2)])
 }
 
 #[allow(clippy::too_many_arguments, clippy::needless_lifetimes, clippy::just_underscores_and_digits, clippy::extra_unused_type_parameters)]
@@ -1126,11 +1124,10 @@ fn __action3<
 >(
     (_, l, _): (i64, i64, i64),
     (_, c0, _): (i64, Tree, i64),
-    (_, pL1, _): (i64, i64, i64),
     (_, r, _): (i64, i64, i64),
 ) -> Tree
 {
-    { probe("A#1", 1, 'L', pL1); node("A#1", l, r, vec![Tree::from(c0)]) }
+    node("A#1", l, r, vec![Tree::from(c0)])
 }
 
 #[allow(clippy::too_many_arguments, clippy::needless_lifetimes, clippy::just_underscores_and_digits, clippy::extra_unused_type_parameters)]
@@ -1138,11 +1135,10 @@ fn __action4<
 >(
     (_, l, _): (i64, i64, i64),
     (_, c0, _): (i64, Tok, i64),
-    (_, pR1, _): (i64, i64, i64),
     (_, r, _): (i64, i64, i64),
 ) -> Tree
 {
-    { probe("B#0", 1, 'R', pR1); node("B#0", l, r, vec![Tree::from(c0)]) }
+    node("B#0", l, r, vec![Tree::from(c0)])
 }
 
 #[allow(clippy::too_many_arguments, clippy::needless_lifetimes, clippy::just_underscores_and_digits, clippy::extra_unused_type_parameters)]
@@ -1186,31 +1182,21 @@ fn __action8<
     __1: (i64, Tok, i64),
     __2: (i64, Tree, i64),
     __3: (i64, i64, i64),
-    __4: (i64, i64, i64),
 ) -> Tree
 {
     let __start0 = __0.0.clone();
     let __end0 = __0.0.clone();
-    let __start1 = __0.0.clone();
-    let __end1 = __0.0.clone();
     let __temp0 = __action7(
         &__start0,
         &__end0,
     );
     let __temp0 = (__start0, __temp0, __end0);
-    let __temp1 = __action7(
-        &__start1,
-        &__end1,
-    );
-    let __temp1 = (__start1, __temp1, __end1);
     __action2(
         __temp0,
-        __temp1,
         __0,
         __1,
         __2,
         __3,
-        __4,
     )
 }
 
@@ -1224,22 +1210,14 @@ fn __action9<
 {
     let __start0 = __0.0.clone();
     let __end0 = __0.0.clone();
-    let __start1 = __0.2.clone();
-    let __end1 = __1.0.clone();
     let __temp0 = __action7(
         &__start0,
         &__end0,
     );
     let __temp0 = (__start0, __temp0, __end0);
-    let __temp1 = __action7(
-        &__start1,
-        &__end1,
-    );
-    let __temp1 = (__start1, __temp1, __end1);
     __action3(
         __temp0,
         __0,
-        __temp1,
         __1,
     )
 }
@@ -1250,7 +1228,6 @@ fn __action10<
 >(
     __0: (i64, Tok, i64),
     __1: (i64, i64, i64),
-    __2: (i64, i64, i64),
 ) -> Tree
 {
     let __start0 = __0.0.clone();
@@ -1264,7 +1241,6 @@ fn __action10<
         __temp0,
         __0,
         __1,
-        __2,
     )
 }
 
@@ -1305,24 +1281,16 @@ fn __action12<
 {
     let __start0 = __2.2.clone();
     let __end0 = __2.2.clone();
-    let __start1 = __2.2.clone();
-    let __end1 = __2.2.clone();
     let __temp0 = __action6(
         &__start0,
         &__end0,
     );
     let __temp0 = (__start0, __temp0, __end0);
-    let __temp1 = __action6(
-        &__start1,
-        &__end1,
-    );
-    let __temp1 = (__start1, __temp1, __end1);
     __action8(
         __0,
         __1,
         __2,
         __temp0,
-        __temp1,
     )
 }
 
@@ -1355,22 +1323,14 @@ fn __action14<
 {
     let __start0 = __0.2.clone();
     let __end0 = __0.2.clone();
-    let __start1 = __0.2.clone();
-    let __end1 = __0.2.clone();
     let __temp0 = __action6(
         &__start0,
         &__end0,
     );
     let __temp0 = (__start0, __temp0, __end0);
-    let __temp1 = __action6(
-        &__start1,
-        &__end1,
-    );
-    let __temp1 = (__start1, __temp1, __end1);
     __action10(
         __0,
         __temp0,
-        __temp1,
     )
 }
 
